@@ -489,8 +489,25 @@ def mm_validate_call_tree(ctx: Ctx, pid: str):
             sights = pmatch("Q_cs[Q_m]", lp[2][1])["cs"]
             new_path = ("tuple", ("star", call_path), ("i", cb, ("c", 0)))
             excl = [a for a in atoms_of(g) if is_call_to(a, "call_paths_exclusive")]
-            nonex = A(("a", meth, "nonexclusive"))
-            if len(excl) == 1:
+            # The two sightings are one call when a nonexclusive method occurs in both ancestor chains (the called method
+            # included): its body runs once however often it is reached (F26).  The acceptance clause of C11 needs that
+            # test; for the safety properties the stricter test of the called method alone is enough.
+            new_chain = ("tuple", meth, ("star", ancestors))
+            old_chain = ("i", ob, ("c", 0))
+            nonex = None
+            for a in atoms_of(g):
+                ma = pmatch("any(Q_g)", a)
+                if ma is not None and ma["g"][0] == "lc" and len(ma["g"][3]) == 1:
+                    b, it, conds = ma["g"][3][0]
+                    it = ex.vardef(it) or it
+                    mc = [pmatch("Q_x in Q_c", c) for c in conds]
+                    if ma["g"][2] == ("a", b, "nonexclusive") and len(mc) == 1 and mc[0] is not None and mc[0]["x"] == b:
+                        other = ex.vardef(mc[0]["c"]) or mc[0]["c"]
+                        if {it, other} == {new_chain, old_chain}:
+                            nonex = A(a)
+                elif a == ("a", meth, "nonexclusive") and pid != "C11":
+                    nonex = A(a)
+            if len(excl) == 1 and nonex is not None:
                 args = set(excl[0][2])
                 ok = equivalent(g, f_and(f_not(nonex), f_not(A(excl[0])))) is None and args == {("i", ob, ("c", 1)), new_path}
             # every sighting is recorded: call_sights[method].append((new_ancestors, new_call_path)) unconditionally
@@ -500,7 +517,7 @@ def mm_validate_call_tree(ctx: Ctx, pid: str):
             ctx.check(ok_rec, f"{pid}.double-call.sightings", fn.site, "rec_root.call_sights", found="; ".join(tstr(x.call)[:160] for _, x in recs),
                       required="every call is recorded as a sighting of its method (unconditionally), with its own call path")
         ctx.check(ok_dom and ok, f"{pid}.double-call", e.site, "rec_root.report_double_call", found=detail,
-                  required="raise exactly when the method is exclusive and the call path is not exclusive with an earlier sighting of the same method")
+                  required="raise exactly when the call path is not exclusive with an earlier sighting of the same method and no nonexclusive method (the called one included) occurs in the ancestor chains of both sightings")
     # descent after the checks, for every call
     desc = fn.facts(Effect, lambda e: is_call_to(e.call, "rec_root"))
     ok = any(py_guard(e) is True and len(loops(e)) == 2 and e.call[2][2] == ("tuple", ("star", call_path), ("i", loops(e)[1][0][0], ("c", 0))) for _, e in desc)
